@@ -144,21 +144,20 @@ def _judge_loads(run, trace, L, judge, what):
     env = {"VERIF_L": str(L)}
     res = tracecheck(run, "Trace_Decoder", trace, env=env)
     div = 0
-    for r in res["rejects"]:
-        exf = run.path("rej-%d.ndjson" % (len(run.violations) + div + int(time.time() * 1000) % 100000))
-        with open(exf, "w") as f:
-            f.write("\n".join(r["exec"]) + "\n")
-        e2 = tracecheck(run, "Trace_LoadE2E", exf, env={"VERIF_L": str(L), "VERIF_JUDGE": judge}, shards=1)
-        hexin = ""
-        steps = [json.loads(x) for x in r["exec"] if x.startswith('{"e":"step"')]
-        sig = "load L=%s heads=%s" % (L, ";".join("%s@%s" % (",".join(map(str, s["head"])), s["off"]) for s in steps)[:400])
-        if e2["rejects"]:
-            report_violation(run, sig, "%s: execution violates %s (line %d rejected): %s" % (what, judge, e2["rejects"][0]["at"], e2["rejects"][0]["line"][:500]),
+    if res["rejects"]:
+        # Some execution is not a behaviour of the machine. Which property (if any) that violates is decided by the
+        # end-to-end judge, run over the WHOLE trace (the machine check stops examining a shard after a few rejections).
+        e2 = tracecheck(run, "Trace_LoadE2E", trace, env={"VERIF_L": str(L), "VERIF_JUDGE": judge}, max_rejects=4)
+        for r in e2["rejects"]:
+            steps = [json.loads(x) for x in r["exec"] if x.startswith('{"e":"step"')]
+            sig = "load L=%s heads=%s" % (L, ";".join("%s@%s" % (",".join(map(str, s["head"])), s["off"]) for s in steps)[:400])
+            report_violation(run, sig, "%s: execution violates %s (line %d rejected): %s" % (what, judge, r["at"], r["line"][:500]),
                              {"execution": r["exec"][:400], "L": L, "judge": judge})
-        else:
-            div += 1
-            if div <= 3:
+        div = max(0, len(res["rejects"]) - len(e2["rejects"]))
+        for r in res["rejects"][:3]:
+            if not e2["rejects"]:
                 print("NOTE property=%s divergence from the decoder machine that does not violate %s: %s" % (run.pid, judge, r["line"][:300]))
+        res["tlc_states"] += e2["tlc_states"]
     res["divergences"] = div
     return res
 
@@ -282,7 +281,9 @@ def C02(run):
     q = run.quick()
     def plans(L):
         return [["--noops", "dfs", "4" if q else "6"], ["--noops", "dfs", "2", "all"] if q else ["--noops", "dfs", "3", "all"], ["--noops", "rand", "1500" if q else "25000"]]
-    mcs, tot, samples = _load_check(run, "C02", plans, what="cbor_load acceptance and tree", mc_cfgs=("MC_Decoder_L1", "MC_Decoder_L2", "MC_Decoder_L3"))
+    # the default build and one with a small nesting limit (so that nesting exactly at and just above the limit is enumerated)
+    mcs, tot, samples = _load_check(run, "C02", lambda L: plans(L) if L is None else [["--noops", "dfs", "4" if q else "5"], ["--noops", "nest"]], Ls=(None, 2),
+                                    what="cbor_load acceptance and tree", mc_cfgs=("MC_Decoder_L1", "MC_Decoder_L2", "MC_Decoder_L3"))
     _load_evidence(run, mcs, tot, samples, DISTINCT_RULE + "inputs: every token string the decoder keeps reading up to %s heads (16 head classes + huge counts, argument widths cycled), every pair/triple of ALL concrete head variants, seeded random items + single-edit neighbours" % ("4" if q else "6"), LOAD_ASSUME)
 
 
